@@ -153,8 +153,9 @@ CHECKS["C10"] = dict(
     ref="DESIGN.md §5 C10",
     note="Trusted: TLC, PoolProps (~45 lines), the gated executor (time-outs only detect a stuck replay: the schedule is "
          "then released and the run is still judged on PoolProps; the evidence counts such runs). Bounds: n <= 4 (quick) / 6 "
-         "files, W <= 3, at most one failing file per schedule plus the all-files-fail cases. AlignDesign of DESIGN.md is "
-         "not written: align is checked by replay only.",
+         "files, W <= 3, at most one failing file per schedule plus the all-files-fail cases. AlignDesign.tla (two lazy loaders, usage "
+         "counter, eviction) is model-checked for all match relations of <= 3 x 3 files; align's REPLAY uses random gated "
+         "schedules, not TLC's.",
     technique="TLA+ spec (PoolProps/PoolDesign) model-checked with TLC incl. liveness; TLC completion orders forced on "
               "FileSet.map/imap via a gated executor; recorded event logs validated by TLC (PoolTrace)")
 
